@@ -87,6 +87,16 @@ pub fn judge_bytes(ctx: &Ctx, bytes: &[u8], bufsize: usize, app: AppKind) -> Ver
     ctx.judge(problems, true, vec![])
 }
 
+pub fn eval_beside(ctx: &Ctx, c: &ServerCase) -> Verdict {
+    if c.app != AppKind::Real { return Verdict::pass(false); }
+    let bytes = c.req.render(10000);
+    match crate::fw::inproc::binary_answers_beside_idle_connections(&bytes, 1) {
+        Some(true) => Verdict::passc(true, vec!["answered-beside-an-idle-connection"]),
+        Some(false) => ctx.judge(vec![("answered-only-after-an-unrelated-idle-connection-was-closed".to_string(), format!("with one other connection open and silent on a 2-worker server, the request was answered only after that connection had been closed (observed twice); request {}", crate::fw::util::lossy(&bytes, 120)))], true, vec![]),
+        None => Verdict::Discard,
+    }
+}
+
 pub fn run(ctx: &Ctx) {
     crate::fw::inproc::init_env();
     let _tree = match fixed_docroot() { Ok(t) => t, Err(e) => { ctx.inconclusive(&format!("docroot: {}", e)); return; } };
@@ -104,6 +114,9 @@ pub fn run(ctx: &Ctx) {
     // a case that fails by silence costs seconds per evaluation: bound the shrinking
     *ctx.max_shrink_iters.borrow_mut() = 120;
     ctx.prop("generated", ctx.share(ctx.scale(40_000, 3_000_000)), server_case_strategy(false), |c| eval(ctx, c));
+    // one silent connection beside the request (the binary runs two workers): the bytes of the second connection have arrived, it must be answered
+    // although the first client has not said anything yet
+    ctx.prop("beside-an-idle-connection", ctx.share(ctx.scale(160, 6000)), server_case_strategy(false), |c| eval_beside(ctx, c));
     super::common::binary_end(ctx);
     std::env::set_current_dir("/").ok();
 }
@@ -146,6 +159,12 @@ pub fn replay(ctx: &Ctx, section: &str, case: &Value) -> Verdict {
     crate::fw::inproc::init_env();
     let _tree = match fixed_docroot() { Ok(t) => t, Err(e) => return Verdict::fail("replay-docroot-failed", e.to_string()) };
     if super::common::replay_wants_binary(case) { super::common::binary_begin(ctx, &_tree.root); }
+    if section == "beside-an-idle-connection" {
+        super::common::binary_begin(ctx, &_tree.root);
+        let v = match serde_json::from_value::<ServerCase>(case.clone()) { Ok(c) => eval_beside(ctx, &c), Err(e) => Verdict::fail("replay-unreadable", e.to_string()) };
+        super::common::binary_end(ctx);
+        return v;
+    }
     if let Some(b) = case.get("bytes").and_then(|b| b.as_str()) {
         let data = crate::fw::util::unescape_bytes(b);
         if data.is_empty() { return Verdict::pass(false); }
